@@ -19,6 +19,11 @@ ST_TRUSTED = [
 
 PROPS = {
     "C08": {
+        "bounded_checks": [
+            {"name": "survivors", "searcher": "state_tree",
+             "clause": "completeness sentence of C08 (every surviving subtree is carried over, up to exchange among identically shaped siblings) on three unambiguous families + executable well-formedness copy",
+             "bound": "all layout pairs up to 4 nodes for the well-formedness copy (147 456 pairs); survivors: child lists up to length 4 over (a) 6 pairwise distinct leaves, common ones in the same order (126 259 pairs), (b) 4 leaf shapes with repetition, children only removed or only added (8 680 pairs), (c) 6 similar function-call siblings, a prefix removed and 1-2 fresh leaves appended (3 732 pairs)"},
+        ],
         "verus_units": ["state_tree"],
         "replay": "state_tree",
         "floor": {"obligations": 58},
@@ -28,7 +33,7 @@ PROPS = {
             "HashSet iteration order is arbitrary: proved irrelevant (lemma_apply_pointwise) rather than assumed",
         ],
         "not_covered": [
-            "second sentence of C08 (completeness: every surviving subtree is carried over): needs optimality of the f64 score DP, uninterpreted in Verus; it is FALSE on the current tree, see known finding F1",
+            "second sentence of C08 (completeness: every surviving subtree is carried over): needs optimality of the f64 score DP, uninterpreted in Verus; it is FALSE on the current tree, see known finding F1 -- no contract decides it; a BOUNDED exhaustive enumeration over three families on which the sentence holds on the current tree stands in on every run (labelled bounded, not counted as proved)",
             "SizedType::word_size for mir::StateType (calls the type interner): assumed to be a pure function of the value",
         ],
         "explanation": "C08 clauses a-f are postconditions of build_patches_recursive / take_diff / build_state_storage_patch_plan / apply_patches / apply_state_storage_patch_plan (plan_ok, plan_wf, apply_seq, lemma_apply_pointwise); discharged for all layouts of any size and arity.",
